@@ -1,2 +1,3 @@
 pub mod c05;
+pub mod c09;
 pub mod c11;
